@@ -18,7 +18,10 @@ import (
 func init() { register("C12", genC12) }
 
 // alphabet
-var c12Ops = []string{"next", "nextHold", "offer", "resp", "respStale", "err", "initerr", "restnext", "resterr", "unknown", "badmethod"}
+// "restoreEvt" is the platform event "restore requested" arriving while the runtime skipped
+// restore/next and is parked in its first next (the only other realistic point, a runtime parked
+// in restore/next, is part of the "restnext" step itself).
+var c12Ops = []string{"next", "nextHold", "offer", "restoreEvt", "resp", "respStale", "err", "initerr", "restnext", "resterr", "unknown", "badmethod"}
 
 type c12Desc struct {
 	Snapshot bool     `json:"snapshot"`
@@ -52,7 +55,7 @@ func genC12(tier string, seed int64) []Case {
 			return
 		}
 		for _, op := range c12Ops {
-			if op == "offer" && !contains(cur, "nextHold") {
+			if (op == "offer" || op == "restoreEvt") && !contains(cur, "nextHold") {
 				continue // nothing to offer to
 			}
 			rec(append(cur, op))
@@ -65,7 +68,7 @@ func genC12(tier string, seed int64) []Case {
 	if tier == "thorough" {
 		n = 4000
 	}
-	prog := []string{"next", "resp", "next", "err", "next", "nextHold", "offer", "resp"}
+	prog := []string{"next", "resp", "next", "err", "next", "nextHold", "offer", "resp", "restoreEvt"}
 	for i := 0; i < n; i++ {
 		l := 5 + r.Intn(4)
 		var seq []string
@@ -124,6 +127,7 @@ func runC12(c *Ctx, d c12Desc) {
 	var invs []*vh.Invocation
 	invN := 0
 	var restoreDone chan error
+	restoreUsed := false
 	trace := []string{}
 
 	// deliver finishes a parked next by offering an invocation (returns false if it did not come back)
@@ -171,6 +175,29 @@ func runC12(c *Ctx, d c12Desc) {
 					return
 				}
 			}
+			continue
+		case "restoreEvt":
+			if !m.snapshot || restoreUsed || parked == nil || parkedOp != "next" || m.state != "Parked" || invN != 0 {
+				continue
+			}
+			restoreUsed = true
+			ch := make(chan error, 1)
+			go func() {
+				_, err := w.E.Srv.Restore(&interop.Restore{RestoreHookTimeoutMs: 8000})
+				ch <- err
+			}()
+			select {
+			case err := <-ch:
+				c.Check(err == nil, "restore_without_hook_succeeds", "C12/restore-event-result", "restore failed although the runtime skipped the restore hook and waits for an invocation", fmt.Sprint(err))
+			case <-time.After(4 * time.Second):
+				// one-sided: the hook timeout is 8 s, a restore that has nothing to wait for returns at once
+				c.Check(false, "restore_without_hook_succeeds", "C12/restore-event-hangs", "restore did not return although the runtime had skipped the restore hook", strings.Join(trace, ","))
+			}
+			time.Sleep(2 * time.Millisecond)
+			if !c.Check(!parked.Done(), "next_blocks_across_restore", fmt.Sprintf("C12/restore-event-released-next/%d", statusOf(parked)), "a next parked before the restore request returned without an invocation being available", strings.Join(trace, ",")) {
+				return
+			}
+			c.Check(w.E.RuntimeState() == "Ready", "next_blocks_across_restore", "C12/restore-event-state/"+w.E.RuntimeState(), "restore request changed the state of a runtime parked in next", nil)
 			continue
 		case "next", "nextHold":
 			if parked != nil {
@@ -359,4 +386,11 @@ func classify(st int) string {
 		return "unknown_route"
 	}
 	return fmt.Sprint(st)
+}
+
+func statusOf(a *vh.Async) int {
+	if a != nil && a.Done() && a.R != nil {
+		return a.R.Status
+	}
+	return 0
 }
